@@ -139,12 +139,21 @@ def run(ctx, b, broken):
             su.violation(second, "a reused CLexer after input() differs from a fresh one", {"previous_input": first})
     # reused generator
     gen = c_generator.CGenerator()
-    for g, toks, exp in gen_cases(ctx, 100 if ctx.tier == "quick" else 1500):
-        text, _ = cgen.layout(toks, ctx.rng, "single")
+    import semgen
+    hand = [(None, t_, None) for t_, _v in ZOO] + [(None, t_, None) for t_ in semgen.SEMZOO]
+    ctx.rng.shuffle(hand)
+    for g, toks, exp in hand + list(gen_cases(ctx, 100 if ctx.tier == "quick" else 1500)):
+        text = toks if g is None and isinstance(toks, str) else cgen.layout(toks, ctx.rng, "single")[0]
         try:
             a = parse_impl_ast(text)
+        except Exception:
+            continue
+        try:
             t1 = gen.visit(a)
         except Exception:
+            # the generator raised (a listed C07 finding, e.g. the _Pragma operator): what the instance is worth afterwards is
+            # not the subject here - reuse is checked after SUCCESSFUL visits
+            gen = c_generator.CGenerator()
             continue
         ctx.evaluations += 1
         ctx.count("suite:generator-reuse")
